@@ -225,6 +225,9 @@ def run(ctx):
             ctx.violation(f"C14|heater|{bad[0]}|{job[0]}", f"{job[0]} cfg {job[1]} log {job[2]} {job[3:] or ''}: {bad[1]}",
                           {"mode": "heater", "job": list(job)})
     evals += hn
+    for c in combos[ctx.seed % 800:][:2]:
+        ctx.sample({"heater_case": {"combination": list(c[:3]), "dropped_items": list(c[3]) if len(c) > 3 else [],
+                                    "states": "2 units x 7 raw readings + 4 flag combinations x 3 temperature orders"}})
     ctx.set("heater_combinations", len(combos))
     ctx.set("heater_kinds", kinds)
     ctx.log(f"(c) {len(combos)} platform/cfg/log combinations: {kinds}")
